@@ -79,6 +79,14 @@ theorem volcurve_euler_exact (pi : Rat) (t : Tank) (c : List (Rat × Rat)) (hc :
   simp only at *
   exact interp_inverse hI h0 h1
 
+/-- `interp_inverse` (proved in Lemmas/TankInterp): on a strictly increasing curve, for a volume inside its range, the
+level the code looks up (`np.interp(V, volume_y, level_x)`) has exactly that volume, and vice versa -/
+theorem interp_inverse_volume {c : List (Rat × Rat)} (hI : IncrCurve c) {v : Rat} (h0 : curveLoY c ≤ v) (h1 : v ≤ curveHiY c) :
+    interp (interp v (swapPts c)) c = v := Wntr.Tank.interp_inverse hI h0 h1
+
+theorem interp_inverse_level {c : List (Rat × Rat)} (hI : IncrCurve c) {l : Rat} (h0 : curveLoX c ≤ l) (h1 : l ≤ curveHiX c) :
+    interp (interp l c) (swapPts c) = l := Wntr.Tank.interp_inverse' hI h0 h1
+
 def demoCurve : List (Rat × Rat) := [(0, 0), (2, 100), (4, 400), (6, 500)]
 def demoTank : Tank := ⟨0, 1/2, 11/2, 10, some demoCurve⟩
 
